@@ -9,7 +9,7 @@ LEVEL = dict(
               "a key <= the max_id left behind); delete_object strips references before removing and must be able to strip every "
               "occurrence; prune_objects removes exactly keys minus traverse_objects(); delete_pages decrements Count along the Parent "
               "chain; creating a Resources entry must not shadow inherited resources; compress/decompress keep stream dictionaries "
-              "consistent with their data (C09's setter rules)",
+              "consistent with their data (C09's setter rules); all structural rules of C10 (renumbering is an editing operation); prune_objects by data flow (membership in the traversal result, negated, over objects.keys()); build_outline's id counter by data flow",
     explanation="Decides structural necessary conditions of soundness for each editing operation. Does not decide model conformance of "
                 "arbitrary operation sequences or page content after edits.",
     trusted_base=["rustc MIR and callee resolution"],
